@@ -66,6 +66,19 @@ def generate(seed, tier="quick"):
     if mrng.random() < 0.3:
         # the compared object keeps changing after the comparison: what the first run writes must be what was compared, else the second run changes it again
         W.add_mutation_test(mrng, prog["files"][0], style="rec")
+    qrng = sub(seed, "equal-twins")
+    if qrng.random() < 0.15:
+        # one == snapshot compared several times per session with values that are equal but written differently (1 / 1.0 / True, 200 / an IntFlag):
+        # whatever the first run settles on is what every later run finds
+        f = prog["files"][0]
+        vals = qrng.choice([[["int", 1], ["float", "1.0"]], [["float", "1.0"], ["int", 1]], [["bool", True], ["int", 1], ["float", "1.0"]], [["int", 2], ["raw", "IPerm.W"]],
+                            [["raw", "IPerm.R"], ["int", 1]], [["tuple", [["int", 0], ["int", 1]]], ["tuple", [["bool", False], ["float", "1.0"]]]]])
+        f["sites"]["tw1"] = {"op": "eq", "place": qrng.choice(["direct", "func"]), "arg": qrng.choice([None, V.expr(vals[0]), V.expr(vals[-1])]), "prev": None}
+        if f["sites"]["tw1"]["place"] == "direct":
+            qrng.choice(f["tests"])["events"].append({"t": "cmp", "eid": "etw1", "site": "tw1", "vals": vals, "style": "rec"})
+        else:
+            for i, v in enumerate(vals):
+                qrng.choice(f["tests"])["events"].append({"t": "cmp", "eid": f"etw1_{i}", "site": "tw1", "vals": [v], "style": "rec"})
     frng = sub(seed, "flags")
     approved = list(CATS) if frng.random() < 0.5 else [c for c in CATS if frng.random() < 0.5]
     driver = "plugin" if sub(seed, "driver").random() < 0.25 else "inline"
